@@ -16,7 +16,7 @@ behaviour against a term model is not decided. (=..)/2 is Prolog: `univ_errors/3
 import os
 import sys
 
-from .core import AnchorLost, REPO
+from .core import AnchorLost, REPO, walk
 from . import c22
 
 sys.path.insert(0, os.path.dirname(os.path.dirname(os.path.abspath(__file__))))
@@ -34,7 +34,8 @@ def has(tests, sign, name, pred=None):
 
 
 def run(ctx, R):
-    R.rule("RF3 path conditions of every error thrown by univ_errors/3 (ISO 8.5.3.3)")
+    R.rule("RF3 path conditions of every error thrown by univ_errors/3 (ISO 8.5.3.3); RF3 the copier is handed heap terms only")
+    copy_source_is_a_heap_term(ctx, R)
     text = open(os.path.join(REPO, "src/lib/builtins.pl")).read()
     ue = uv = None
     for term, line in P.read_clauses(text):
@@ -114,3 +115,30 @@ def run(ctx, R):
     R.floor("errors thrown by univ_errors/3", n, 7)
     want = {"instantiation_error": 2, "type_error(list)": 1, "type_error(atom)": 1, "type_error(atomic)": 1, "domain_error(non_empty_list)": 1, "representation_error(max_arity)": 1}
     R.ob("C23:univ-error:all-seven-iso-cases-present", seen == want, "univ_errors/3 throws %s; ISO 8.5.3.3 lists %s" % (seen, want), where)
+
+
+def copy_source_is_a_heap_term(ctx, R):
+    """The copier dispatches on heap tags (Var, AttrVar, Lis, Str, PStrLoc) and leaves every other cell in the copy as it
+    is. An unbound variable of the caller's environment reaches copy_term/2 as a StackVar cell in the argument register
+    (`p :- copy_term(X, Y), ...` with X first seen there): copied verbatim, the `copy` is a reference to X itself, so
+    X == Y holds and binding Y binds X. MachineState::copy_term reads its source dereferenced and moves such a variable
+    to the heap (binds it to a fresh heap variable) before the copier runs."""
+    F = ctx.facts()
+    ct = [p for p in F.items if p.endswith("MachineState>::copy_term") or p.endswith("MachineState::copy_term")]
+    ct = [p for p in ct if "dispatch" in p or "machine_state" in p]
+    if len(ct) != 1:
+        raise AnchorLost("MachineState::copy_term (%d)" % len(ct))
+    body = F.hir(ct[0])["body"]
+    copier = [x for x in walk(body) if x["k"] == "Call" and (x.get("resolved") or x.get("callee") or "").endswith("copier::copy_term")]
+    if len(copier) != 1:
+        raise AnchorLost("MachineState::copy_term: call of copier::copy_term (%d)" % len(copier))
+    glob = [n for n in walk(body) if n["k"] == "If" and any(x["k"] == "MethodCall" and x["name"] == "is_stack_var" for x in walk(n["cond"]))
+            and any(x["k"] == "MethodCall" and x["name"] == "bind" for x in walk(n["then"]))]
+    R.ob("C23:copy_term:an-environment-variable-is-moved-to-the-heap-before-it-is-copied", len(glob) >= 1 and glob[0]["ln"] < copier[0]["ln"],
+         "MachineState::copy_term hands the argument register to the copier without moving an unbound environment variable to the heap: the copier copies a StackVar cell verbatim, "
+         "so `p :- copy_term(X, Y), X == Y` succeeds and binding Y binds X", F.where(ct[0]))
+    src = copier[0]["args"][1] if len(copier[0]["args"]) > 1 else None
+    raw = src is not None and src["k"] == "Index" and any(y.get("name") == "registers" for y in walk(src))
+    R.ob("C23:copy_term:source-is-not-the-raw-register", src is not None and not raw,
+         "MachineState::copy_term passes the raw argument register to the copier", F.where(ct[0]))
+
